@@ -512,16 +512,31 @@ func (p *Parser) parseComponentStmt() ast.Statement {
 		return nil
 	}
 
+	hasSlots := false
+
 	if p.peekTokenIs(token.SLOT) {
 		p.nextToken() // skip ")"
 		stmt.Slots = p.parseSlots()
+		hasSlots = true
 	} else if p.peekTokenIs(token.HTML) && isWhitespace(p.peekToken.Literal) {
 		p.nextToken() // skip ")"
 
 		if p.peekTokenIs(token.SLOT) {
 			p.nextToken() // skip whitespace
 			stmt.Slots = p.parseSlots()
+			hasSlots = true
 		}
+	}
+
+	// a component with slots must be closed by "@end"
+	if hasSlots && !p.curTokenIs(token.END) {
+		p.newError(
+			p.curToken.ErrorLine(),
+			fail.ErrWrongNextToken,
+			token.String(token.END),
+			token.String(p.curToken.Type),
+		)
+		return nil
 	}
 
 	p.components = append(p.components, stmt)
@@ -619,7 +634,11 @@ func (p *Parser) parseSlots() []*ast.SlotStmt {
 			Body:  p.parseBlockStmt(),
 		})
 
-		p.nextToken() // skip block statement
+		// the slot body must be closed by "@end"
+		if !p.curTokenIs(token.END) && !p.expectPeek(token.END) {
+			return nil
+		}
+
 		p.nextToken() // skip "@end"
 
 		for p.curTokenIs(token.HTML) {
